@@ -36,7 +36,9 @@ const badgerLib = "github.com/dgraph-io/badger/v2"
 func (vc *VC) kvHas(st *State) *Term {
 	return vc.heap(st, "KVhas", vc.eng.st.ArrayOf(sortStr, sortBool))
 }
-func (vc *VC) kvExp(st *State) *Term { return vc.heap(st, "KVexp", vc.eng.st.ArrayOf(sortStr, sortInt)) }
+func (vc *VC) kvExp(st *State) *Term {
+	return vc.heap(st, "KVexp", vc.eng.st.ArrayOf(sortStr, sortInt))
+}
 func (vc *VC) kvVal(st *State, s *Sort) (string, *Term) {
 	name := "KV_" + smtName(s.Name)
 	return name, vc.heap(st, name, vc.eng.st.ArrayOf(sortStr, s))
